@@ -1,574 +1,22 @@
 #!/venv/bin/python
-"""Metamorphic robustness test of the checkers: rewrite every function of a scratch copy of xdsl by a
-behaviour-preserving, purely syntactic transformation and run the checks on the result.  A VIOLATION that appears only on
-the transformed tree is a false alarm of a recogniser that reads spelling instead of meaning.
-
-    tools/metamorph.py <transform> <root> [--files a.py b.py]     rewrite <root>/xdsl in place (a scratch worktree!)
-
-transforms:
-    identity    parse + unparse only (comments and layout dropped)
-    rename      every local variable of every function gets the suffix `_mm` (parameters, globals, imports untouched)
-    invert      `if c: A else: B`  ->  `if not c: B else: A`   (plain if/else, no elif on the else side)
-    nest        `if a and b: X` (no else)  ->  `if a: if b: X`
-    dewalrus    `if (v := e) <cmp>: ...` / `while`-free: hoists a walrus that is the first thing the if-test evaluates
-    demorgan    `if not (a and b)` <-> `if not a or not b` on if tests
-    tmpreturn   `return E` -> `_ret_mm = E; return _ret_mm`
-    returnelse  `if c: <exit>` REST -> `if c: <exit> else: REST`
-    guardclause trailing `if c: BODY` of a function -> `if not c: return` BODY
-    ifexp       `x = a if c else b` / `return a if c else b` -> if / else statements
-    compr       `xs = [E for v in IT if C]` -> explicit loop with append
-    enwalrus    `x = E` + `if x ...` -> `if (x := E) ...`
-    swapcmp     `a < b` -> `b > a` on simple operands
-    anyloop     `if any(P for v in IT)` -> flag loop with break, then `if flag`
-    matchtoif   `match S:` over value patterns -> `_m_mm = S; if _m_mm == V1: ... elif ...`
-"""
-
-from __future__ import annotations
-
-import ast
-import copy
+"""tools/metamorph.py <transform> <root> [--files a.py b.py] — rewrite <root>/xdsl in place (a scratch worktree!) with one
+of the behaviour-preserving transforms of xsa/metamorph.py (see its docstring for the list)."""
+import os
 import sys
 from pathlib import Path
 
-
-def _function_locals(fn: ast.AST) -> set[str]:
-    params = {a.arg for a in fn.args.posonlyargs + fn.args.args + fn.args.kwonlyargs}  # type: ignore[attr-defined]
-    if fn.args.vararg:  # type: ignore[attr-defined]
-        params.add(fn.args.vararg.arg)  # type: ignore[attr-defined]
-    if fn.args.kwarg:  # type: ignore[attr-defined]
-        params.add(fn.args.kwarg.arg)  # type: ignore[attr-defined]
-    stored: set[str] = set()
-    banned: set[str] = set(params)
-    for n in ast.walk(fn):
-        if n is fn:
-            continue
-        if isinstance(n, (ast.FunctionDef, ast.AsyncFunctionDef, ast.Lambda, ast.ClassDef)):
-            return set()  # nested scopes: leave the whole function alone
-        if isinstance(n, (ast.Global, ast.Nonlocal)):
-            banned |= set(n.names)
-        if isinstance(n, (ast.Import, ast.ImportFrom)):
-            for a in n.names:
-                banned.add((a.asname or a.name).split(".")[0])
-        if isinstance(n, ast.Call) and isinstance(n.func, ast.Name) and n.func.id in ("locals", "vars", "eval", "exec", "globals"):
-            return set()
-        if isinstance(n, ast.Name) and isinstance(n.ctx, (ast.Store, ast.Del)):
-            stored.add(n.id)
-        if isinstance(n, ast.ExceptHandler) and n.name:
-            stored.add(n.name)
-        if isinstance(n, (ast.MatchAs, ast.MatchStar)) and n.name:
-            stored.add(n.name)
-        if isinstance(n, ast.MatchMapping) and n.rest:
-            stored.add(n.rest)
-    return {s for s in stored - banned if not s.startswith("__")}
-
-
-class Rename(ast.NodeTransformer):
-    def visit_FunctionDef(self, node: ast.FunctionDef):
-        names = _function_locals(node)
-        if not names:
-            # still descend into methods of nested classes etc.
-            self.generic_visit(node)
-            return node
-
-        class R(ast.NodeTransformer):
-            def visit_Name(self, n: ast.Name):
-                if n.id in names:
-                    n.id = n.id + "_mm"
-                return n
-
-            def visit_ExceptHandler(self, n: ast.ExceptHandler):
-                if n.name in names:
-                    n.name = n.name + "_mm"
-                self.generic_visit(n)
-                return n
-
-            def visit_MatchAs(self, n: ast.MatchAs):
-                if n.name in names:
-                    n.name = n.name + "_mm"
-                self.generic_visit(n)
-                return n
-
-            def visit_MatchStar(self, n: ast.MatchStar):
-                if n.name in names:
-                    n.name = n.name + "_mm"
-                return n
-
-            def visit_MatchMapping(self, n: ast.MatchMapping):
-                if n.rest in names:
-                    n.rest = n.rest + "_mm"
-                self.generic_visit(n)
-                return n
-
-        node.body = [R().visit(s) for s in node.body]
-        return node
-
-    visit_AsyncFunctionDef = visit_FunctionDef  # type: ignore[assignment]
-
-
-def _neg(e: ast.expr) -> ast.expr:
-    if isinstance(e, ast.UnaryOp) and isinstance(e.op, ast.Not):
-        return e.operand
-    return ast.UnaryOp(op=ast.Not(), operand=e)
-
-
-class Invert(ast.NodeTransformer):
-    def visit_If(self, node: ast.If):
-        self.generic_visit(node)
-        if node.orelse and not (len(node.orelse) == 1 and isinstance(node.orelse[0], ast.If)):
-            # a walrus in the test binds on both branches either way
-            return ast.copy_location(ast.If(test=_neg(node.test), body=node.orelse, orelse=node.body), node)
-        return node
-
-
-class Nest(ast.NodeTransformer):
-    def visit_If(self, node: ast.If):
-        self.generic_visit(node)
-        if not node.orelse and isinstance(node.test, ast.BoolOp) and isinstance(node.test.op, ast.And) and len(node.test.values) >= 2:
-            first, rest = node.test.values[0], node.test.values[1:]
-            inner_test = rest[0] if len(rest) == 1 else ast.BoolOp(op=ast.And(), values=rest)
-            return ast.copy_location(ast.If(test=first, body=[ast.If(test=inner_test, body=node.body, orelse=[])], orelse=[]), node)
-        return node
-
-
-class DeMorgan(ast.NodeTransformer):
-    def visit_If(self, node: ast.If):
-        self.generic_visit(node)
-        t = node.test
-        if isinstance(t, ast.UnaryOp) and isinstance(t.op, ast.Not) and isinstance(t.operand, ast.BoolOp):
-            b = t.operand
-            node.test = ast.BoolOp(op=ast.Or() if isinstance(b.op, ast.And) else ast.And(), values=[_neg(v) for v in b.values])
-        elif isinstance(t, ast.BoolOp) and all(isinstance(v, ast.UnaryOp) and isinstance(v.op, ast.Not) for v in t.values):
-            node.test = ast.UnaryOp(op=ast.Not(), operand=ast.BoolOp(op=ast.And() if isinstance(t.op, ast.Or) else ast.Or(), values=[v.operand for v in t.values]))  # type: ignore[attr-defined]
-        return node
-
-
-class DeWalrus(ast.NodeTransformer):
-    """`if (v := e) is not None:` -> `v = e` / `if v is not None:` when the walrus is the leftmost leaf of the test (the
-    first thing evaluated) and the `if` is a plain statement of a block (not an elif: the hoisted assignment would then
-    run before the earlier tests)."""
-
-    def _leftmost_walrus(self, t: ast.expr):
-        cur = t
-        path = []
-        while True:
-            if isinstance(cur, ast.NamedExpr):
-                return cur, path
-            if isinstance(cur, ast.Compare):
-                path.append((cur, "left"))
-                cur = cur.left
-            elif isinstance(cur, ast.BoolOp):
-                path.append((cur, "values0"))
-                cur = cur.values[0]
-            elif isinstance(cur, ast.UnaryOp):
-                path.append((cur, "operand"))
-                cur = cur.operand
-            else:
-                return None, path
-
-    def _block(self, stmts: list[ast.stmt]) -> list[ast.stmt]:
-        out: list[ast.stmt] = []
-        for st in stmts:
-            st = self.visit(st)
-            if isinstance(st, ast.If):
-                w, path = self._leftmost_walrus(st.test)
-                if w is not None and isinstance(w.target, ast.Name):
-                    out.append(ast.copy_location(ast.Assign(targets=[ast.Name(id=w.target.id, ctx=ast.Store())], value=w.value), st))
-                    repl = ast.Name(id=w.target.id, ctx=ast.Load())
-                    if not path:
-                        st.test = repl
-                    else:
-                        parent, fld = path[-1]
-                        if fld == "left":
-                            parent.left = repl
-                        elif fld == "values0":
-                            parent.values[0] = repl
-                        else:
-                            parent.operand = repl
-            out.append(st)
-        return out
-
-    def generic_visit(self, node):
-        for fld in ("body", "orelse", "finalbody"):
-            v = getattr(node, fld, None)
-            if isinstance(v, list) and v and isinstance(v[0], ast.stmt):
-                if fld == "orelse" and isinstance(node, ast.If) and len(v) == 1 and isinstance(v[0], ast.If):
-                    # elif chain: do not hoist in front of the elif, only descend
-                    v[0] = self.visit(v[0])
-                    continue
-                setattr(node, fld, self._block(v))
-        for h in getattr(node, "handlers", []) or []:
-            h.body = self._block(h.body)
-        for c in getattr(node, "cases", []) or []:
-            c.body = self._block(c.body)
-        return node
-
-
-def _terminates(body: list[ast.stmt]) -> bool:
-    return bool(body) and isinstance(body[-1], (ast.Return, ast.Raise, ast.Continue, ast.Break))
-
-
-class TmpReturn(ast.NodeTransformer):
-    """`return EXPR` -> `_ret_mm = EXPR; return _ret_mm` (EXPR not a plain name / constant)"""
-
-    def _block(self, stmts):
-        out = []
-        for st in stmts:
-            st = self.visit(st)
-            if isinstance(st, ast.Return) and st.value is not None and not isinstance(st.value, (ast.Name, ast.Constant)):
-                out.append(ast.copy_location(ast.Assign(targets=[ast.Name(id="_ret_mm", ctx=ast.Store())], value=st.value), st))
-                out.append(ast.copy_location(ast.Return(value=ast.Name(id="_ret_mm", ctx=ast.Load())), st))
-            else:
-                out.append(st)
-        return out
-
-    def generic_visit(self, node):
-        if isinstance(node, ast.Lambda):
-            return node
-        for fld in ("body", "orelse", "finalbody"):
-            v = getattr(node, fld, None)
-            if isinstance(v, list) and v and isinstance(v[0], ast.stmt):
-                setattr(node, fld, self._block(v))
-        for h in getattr(node, "handlers", []) or []:
-            h.body = self._block(h.body)
-        for c in getattr(node, "cases", []) or []:
-            c.body = self._block(c.body)
-        return node
-
-    def visit_FunctionDef(self, node):
-        if any(isinstance(n, (ast.Yield, ast.YieldFrom)) for n in ast.walk(node)):
-            return node
-        return self.generic_visit(node)
-
-    visit_AsyncFunctionDef = visit_FunctionDef
-
-
-class ReturnElse(ast.NodeTransformer):
-    """`if c: <terminating>` followed by REST  ->  `if c: <terminating> else: REST`"""
-
-    def _block(self, stmts):
-        stmts = [self.visit(s) for s in stmts]
-        for i, st in enumerate(stmts):
-            if isinstance(st, ast.If) and not st.orelse and _terminates(st.body) and i + 1 < len(stmts):
-                rest = self._block_noop(stmts[i + 1 :])
-                st.orelse = rest
-                return stmts[: i + 1]
-        return stmts
-
-    def _block_noop(self, stmts):
-        # the tail was already visited; apply the rewrite recursively on it
-        for i, st in enumerate(stmts):
-            if isinstance(st, ast.If) and not st.orelse and _terminates(st.body) and i + 1 < len(stmts):
-                st.orelse = self._block_noop(stmts[i + 1 :])
-                return stmts[: i + 1]
-        return stmts
-
-    def generic_visit(self, node):
-        for fld in ("body", "orelse", "finalbody"):
-            v = getattr(node, fld, None)
-            if isinstance(v, list) and v and isinstance(v[0], ast.stmt):
-                setattr(node, fld, self._block(v))
-        for h in getattr(node, "handlers", []) or []:
-            h.body = self._block(h.body)
-        for c in getattr(node, "cases", []) or []:
-            c.body = self._block(c.body)
-        return node
-
-
-class GuardClause(ast.NodeTransformer):
-    """last statement of a function `if c: BODY` (no else, function falls off the end)  ->  `if not c: return` + BODY"""
-
-    def visit_FunctionDef(self, node):
-        self.generic_visit(node)
-        if any(isinstance(n, (ast.Yield, ast.YieldFrom)) for n in ast.walk(node)):
-            return node
-        last = node.body[-1] if node.body else None
-        if isinstance(last, ast.If) and not last.orelse and len(node.body) >= 1 and not any(isinstance(x, ast.NamedExpr) for x in ast.walk(last.test)):
-            node.body = node.body[:-1] + [ast.copy_location(ast.If(test=_neg(last.test), body=[ast.Return(value=None)], orelse=[]), last)] + last.body
-        return node
-
-    visit_AsyncFunctionDef = visit_FunctionDef
-
-
-class IfExpToStmt(ast.NodeTransformer):
-    """`x = a if c else b` (plain name target)  ->  `if c: x = a else: x = b`"""
-
-    def _block(self, stmts):
-        out = []
-        for st in stmts:
-            st = self.visit(st)
-            if isinstance(st, ast.Assign) and len(st.targets) == 1 and isinstance(st.targets[0], ast.Name) and isinstance(st.value, ast.IfExp):
-                mk = lambda v: ast.copy_location(ast.Assign(targets=[ast.Name(id=st.targets[0].id, ctx=ast.Store())], value=v), st)
-                out.append(ast.copy_location(ast.If(test=st.value.test, body=[mk(st.value.body)], orelse=[mk(st.value.orelse)]), st))
-            elif isinstance(st, ast.Return) and isinstance(st.value, ast.IfExp):
-                out.append(ast.copy_location(ast.If(test=st.value.test, body=[ast.copy_location(ast.Return(value=st.value.body), st)], orelse=[ast.copy_location(ast.Return(value=st.value.orelse), st)]), st))
-            else:
-                out.append(st)
-        return out
-
-    def generic_visit(self, node):
-        if isinstance(node, ast.Lambda):
-            return node
-        for fld in ("body", "orelse", "finalbody"):
-            v = getattr(node, fld, None)
-            if isinstance(v, list) and v and isinstance(v[0], ast.stmt):
-                setattr(node, fld, self._block(v))
-        for h in getattr(node, "handlers", []) or []:
-            h.body = self._block(h.body)
-        for c in getattr(node, "cases", []) or []:
-            c.body = self._block(c.body)
-        return node
-
-    def visit_ClassDef(self, node):
-        # class-level assignments stay (dataclass fields etc.); methods are rewritten
-        node.body = [self.visit(s) if isinstance(s, (ast.FunctionDef, ast.AsyncFunctionDef, ast.ClassDef)) else s for s in node.body]
-        return node
-
-    def visit_Module(self, node):
-        node.body = [self.visit(s) if isinstance(s, (ast.FunctionDef, ast.AsyncFunctionDef, ast.ClassDef)) else s for s in node.body]
-        return node
-
-
-class ComprToLoop(ast.NodeTransformer):
-    """`xs = [E for v in IT if C]` (statement in a function, one generator, plain name targets not used elsewhere in the
-    function)  ->  `xs = []` / `for v in IT: if C: xs.append(E)`"""
-
-    def visit_FunctionDef(self, node):
-        self.generic_visit(node)
-        if any(isinstance(n, (ast.Lambda, ast.FunctionDef, ast.AsyncFunctionDef, ast.ClassDef)) for n in ast.walk(node) if n is not node):
-            return node
-        counts: dict[str, int] = {}
-        for n in ast.walk(node):
-            if isinstance(n, ast.Name):
-                counts[n.id] = counts.get(n.id, 0) + 1
-        params = {a.arg for a in node.args.posonlyargs + node.args.args + node.args.kwonlyargs}
-
-        def block(stmts):
-            out = []
-            for st in stmts:
-                for fld in ("body", "orelse", "finalbody"):
-                    v = getattr(st, fld, None)
-                    if isinstance(v, list) and v and isinstance(v[0], ast.stmt):
-                        setattr(st, fld, block(v))
-                for h in getattr(st, "handlers", []) or []:
-                    h.body = block(h.body)
-                for c in getattr(st, "cases", []) or []:
-                    c.body = block(c.body)
-                if isinstance(st, ast.Assign) and len(st.targets) == 1 and isinstance(st.targets[0], ast.Name) and isinstance(st.value, ast.ListComp) and len(st.value.generators) == 1 and not st.value.generators[0].is_async:
-                    g = st.value.generators[0]
-                    tnames = [x.id for x in ast.walk(g.target) if isinstance(x, ast.Name)]
-                    inside = sum(1 for x in ast.walk(st.value) if isinstance(x, ast.Name) and x.id in tnames)
-                    xs = st.targets[0].id
-                    uses_self = any(isinstance(x, ast.Name) and x.id == xs for x in ast.walk(st.value))
-                    if tnames and all(t not in params for t in tnames) and sum(counts.get(t, 0) for t in tnames) == inside and not uses_self and not any(isinstance(x, ast.NamedExpr) for x in ast.walk(st.value)):
-                        app = ast.Expr(value=ast.Call(func=ast.Attribute(value=ast.Name(id=xs, ctx=ast.Load()), attr="append", ctx=ast.Load()), args=[st.value.elt], keywords=[]))
-                        body = [app]
-                        for c_ in reversed(g.ifs):
-                            body = [ast.If(test=c_, body=body, orelse=[])]
-                        out.append(ast.copy_location(ast.Assign(targets=[ast.Name(id=xs, ctx=ast.Store())], value=ast.List(elts=[], ctx=ast.Load())), st))
-                        out.append(ast.copy_location(ast.For(target=g.target, iter=g.iter, body=body, orelse=[], type_comment=None), st))
-                        continue
-                out.append(st)
-            return out
-
-        node.body = block(node.body)
-        return node
-
-    visit_AsyncFunctionDef = visit_FunctionDef
-
-
-class MatchToIf(ast.NodeTransformer):
-    """`match S: case V1: A  case V2 | V3: B  case _: C` (value / or-of-value patterns and an optional final wildcard, no
-    guards, no captures)  ->  `_m_mm = S` / `if _m_mm == V1: A elif _m_mm == V2 or _m_mm == V3: B else: C`.  A value
-    pattern compares with `==`, exactly as the rewritten test does."""
-
-    def visit_Match(self, node: ast.Match):
-        self.generic_visit(node)
-
-        def vals(p):
-            if isinstance(p, ast.MatchValue):
-                return [p.value]
-            if isinstance(p, ast.MatchOr) and all(isinstance(q, ast.MatchValue) for q in p.patterns):
-                return [q.value for q in p.patterns]
-            return None
-
-        cases = []
-        for i, c in enumerate(node.cases):
-            if c.guard is not None:
-                return node
-            v = vals(c.pattern)
-            if v is not None:
-                cases.append((v, c.body))
-            elif isinstance(c.pattern, ast.MatchAs) and c.pattern.pattern is None and c.pattern.name is None and i == len(node.cases) - 1:
-                cases.append((None, c.body))
-            else:
-                return node
-        subj = ast.Name(id="_m_mm", ctx=ast.Load())
-        pre = ast.copy_location(ast.Assign(targets=[ast.Name(id="_m_mm", ctx=ast.Store())], value=node.subject), node)
-
-        def test(vs):
-            ts = [ast.Compare(left=ast.Name(id="_m_mm", ctx=ast.Load()), ops=[ast.Eq()], comparators=[v]) for v in vs]
-            return ts[0] if len(ts) == 1 else ast.BoolOp(op=ast.Or(), values=ts)
-
-        orelse: list[ast.stmt] = []
-        for vs, body in reversed(cases):
-            if vs is None:
-                orelse = body
-            else:
-                orelse = [ast.copy_location(ast.If(test=test(vs), body=body, orelse=orelse), node)]
-        if not orelse or not isinstance(orelse[0], ast.If):
-            return node
-        return [pre] + orelse
-
-
-class EnWalrus(ast.NodeTransformer):
-    """`x = E` directly followed by `if <test whose first evaluated leaf is x>`  ->  `if (x := E) ...` (inverse of dewalrus)"""
-
-    def _block(self, stmts):
-        out = []
-        i = 0
-        stmts = [self.visit(s) for s in stmts]
-        while i < len(stmts):
-            st = stmts[i]
-            nxt = stmts[i + 1] if i + 1 < len(stmts) else None
-            if isinstance(st, ast.Assign) and len(st.targets) == 1 and isinstance(st.targets[0], ast.Name) and isinstance(nxt, ast.If) and not isinstance(st.value, (ast.Constant, ast.Name)):
-                cur, parent, fld = nxt.test, None, None
-                while True:
-                    if isinstance(cur, ast.Compare):
-                        parent, fld, cur = cur, "left", cur.left
-                    elif isinstance(cur, ast.BoolOp):
-                        parent, fld, cur = cur, "values0", cur.values[0]
-                    elif isinstance(cur, ast.UnaryOp):
-                        parent, fld, cur = cur, "operand", cur.operand
-                    else:
-                        break
-                if isinstance(cur, ast.Name) and cur.id == st.targets[0].id and not any(isinstance(x, ast.Name) and x.id == cur.id for x in ast.walk(st.value)):
-                    w = ast.NamedExpr(target=ast.Name(id=cur.id, ctx=ast.Store()), value=st.value)
-                    if parent is None:
-                        nxt.test = w
-                    elif fld == "left":
-                        parent.left = w
-                    elif fld == "values0":
-                        parent.values[0] = w
-                    else:
-                        parent.operand = w
-                    out.append(nxt)
-                    i += 2
-                    continue
-            out.append(st)
-            i += 1
-        return out
-
-    def generic_visit(self, node):
-        if isinstance(node, ast.Lambda):
-            return node
-        for fld in ("body", "orelse", "finalbody"):
-            v = getattr(node, fld, None)
-            if isinstance(v, list) and v and isinstance(v[0], ast.stmt):
-                setattr(node, fld, self._block(v))
-        for h in getattr(node, "handlers", []) or []:
-            h.body = self._block(h.body)
-        for c in getattr(node, "cases", []) or []:
-            c.body = self._block(c.body)
-        return node
-
-    def visit_ClassDef(self, node):
-        node.body = [self.visit(s) if isinstance(s, (ast.FunctionDef, ast.AsyncFunctionDef, ast.ClassDef)) else s for s in node.body]
-        return node
-
-    def visit_Module(self, node):
-        node.body = [self.visit(s) if isinstance(s, (ast.FunctionDef, ast.AsyncFunctionDef, ast.ClassDef)) else s for s in node.body]
-        return node
-
-
-class SwapCmp(ast.NodeTransformer):
-    """`a < b` -> `b > a` (and <=, >, >=) when both operands are names / attribute chains / integer constants"""
-
-    def visit_Compare(self, node: ast.Compare):
-        self.generic_visit(node)
-        simple = lambda e: isinstance(e, ast.Name) or (isinstance(e, ast.Constant) and isinstance(e.value, int) and not isinstance(e.value, bool)) or (isinstance(e, ast.Attribute) and simple(e.value))
-        if len(node.ops) == 1 and isinstance(node.ops[0], (ast.Lt, ast.LtE, ast.Gt, ast.GtE)) and simple(node.left) and simple(node.comparators[0]):
-            flip = {ast.Lt: ast.Gt, ast.LtE: ast.GtE, ast.Gt: ast.Lt, ast.GtE: ast.LtE}[type(node.ops[0])]
-            return ast.copy_location(ast.Compare(left=node.comparators[0], ops=[flip()], comparators=[node.left]), node)
-        return node
-
-
-class AnyToLoop(ast.NodeTransformer):
-    """`if any(P for v in IT): ...` / `if not any(...)` / `if all(...)` (the whole test, one generator, plain name targets
-    not used elsewhere)  ->  a flag loop with break in front of the `if`, which then tests the flag"""
-
-    def visit_FunctionDef(self, node):
-        self.generic_visit(node)
-        if any(isinstance(n, (ast.Lambda, ast.FunctionDef, ast.AsyncFunctionDef, ast.ClassDef)) for n in ast.walk(node) if n is not node):
-            return node
-        counts: dict[str, int] = {}
-        for n in ast.walk(node):
-            if isinstance(n, ast.Name):
-                counts[n.id] = counts.get(n.id, 0) + 1
-        params = {a.arg for a in node.args.posonlyargs + node.args.args + node.args.kwonlyargs}
-        k = [0]
-
-        def block(stmts):
-            out = []
-            for st in stmts:
-                for fld in ("body", "orelse", "finalbody"):
-                    v = getattr(st, fld, None)
-                    if isinstance(v, list) and v and isinstance(v[0], ast.stmt):
-                        setattr(st, fld, block(v))
-                for h in getattr(st, "handlers", []) or []:
-                    h.body = block(h.body)
-                for c in getattr(st, "cases", []) or []:
-                    c.body = block(c.body)
-                if isinstance(st, ast.If):
-                    t, neg = st.test, False
-                    while isinstance(t, ast.UnaryOp) and isinstance(t.op, ast.Not):
-                        t, neg = t.operand, not neg
-                    if isinstance(t, ast.Call) and isinstance(t.func, ast.Name) and t.func.id in ("any", "all") and len(t.args) == 1 and isinstance(t.args[0], ast.GeneratorExp) and len(t.args[0].generators) == 1 and not t.args[0].generators[0].is_async:
-                        g = t.args[0].generators[0]
-                        tnames = [x.id for x in ast.walk(g.target) if isinstance(x, ast.Name)]
-                        inside = sum(1 for x in ast.walk(t) if isinstance(x, ast.Name) and x.id in tnames)
-                        if tnames and all(tn not in params for tn in tnames) and sum(counts.get(tn, 0) for tn in tnames) == inside and not any(isinstance(x, ast.NamedExpr) for x in ast.walk(t)):
-                            k[0] += 1
-                            flag = f"_q{k[0]}_mm"
-                            is_any = t.func.id == "any"
-                            hit = t.args[0].elt if is_any else _neg(t.args[0].elt)
-                            for c_ in reversed(g.ifs):
-                                hit = ast.BoolOp(op=ast.And(), values=[c_, hit])
-                            body = [ast.If(test=hit, body=[ast.Assign(targets=[ast.Name(id=flag, ctx=ast.Store())], value=ast.Constant(is_any)), ast.Break()], orelse=[])]
-                            out.append(ast.copy_location(ast.Assign(targets=[ast.Name(id=flag, ctx=ast.Store())], value=ast.Constant(not is_any)), st))
-                            out.append(ast.copy_location(ast.For(target=g.target, iter=g.iter, body=body, orelse=[], type_comment=None), st))
-                            st.test = _neg(ast.Name(id=flag, ctx=ast.Load())) if neg else ast.Name(id=flag, ctx=ast.Load())
-                out.append(st)
-            return out
-
-        node.body = block(node.body)
-        return node
-
-    visit_AsyncFunctionDef = visit_FunctionDef
-
-
-TRANSFORMS = {"enwalrus": EnWalrus, "swapcmp": SwapCmp, "anyloop": AnyToLoop, "matchtoif": MatchToIf, "tmpreturn": TmpReturn, "returnelse": ReturnElse, "guardclause": GuardClause, "ifexp": IfExpToStmt, "compr": ComprToLoop, "identity": None, "rename": Rename, "invert": Invert, "nest": Nest, "dewalrus": DeWalrus, "demorgan": DeMorgan}
+sys.path.insert(0, os.environ.get("XSA_CODE", "/verif"))
+from xsa.metamorph import TRANSFORMS, rewrite_tree  # noqa: E402
+import xsa.metamorph as _m  # noqa: E402
 
 
 def main() -> int:
     if len(sys.argv) < 3 or sys.argv[1] not in TRANSFORMS:
-        print(__doc__)
+        print(_m.__doc__)
         return 2
     tname, root = sys.argv[1], Path(sys.argv[2])
-    files = [root / f for f in sys.argv[4:]] if len(sys.argv) > 3 and sys.argv[3] == "--files" else sorted((root / "xdsl").rglob("*.py"))
-    n = 0
-    for p in files:
-        src = p.read_text()
-        try:
-            tree = ast.parse(src)
-        except SyntaxError:
-            continue
-        T = TRANSFORMS[tname]
-        new = T().visit(copy.deepcopy(tree)) if T is not None else tree
-        ast.fix_missing_locations(new)
-        out = ast.unparse(new) + "\n"
-        compile(out, str(p), "exec")
-        p.write_text(out)
-        n += 1
+    files = [root / f for f in sys.argv[4:]] if len(sys.argv) > 3 and sys.argv[3] == "--files" else None
+    n = rewrite_tree(tname, root, files)
     print(f"{tname}: rewrote {n} files under {root}")
     return 0
 
